@@ -6,8 +6,14 @@ package router
 // / tiny; all orders of query arrivals and upstream reply deliveries, from a fresh router and after an unsupported query.
 
 import (
+	"bytes"
+	"encoding/base64"
 	"fmt"
+	"io"
+	"net/http"
+	"os"
 	"strings"
+	"sync"
 	"testing"
 	"time"
 
@@ -26,17 +32,95 @@ type c04Q struct {
 var c04Questions = []c04Q{
 	{refdns.N("one", "example", "test"), 1, 1},
 	{refdns.N("two", "example", "test"), 1, 1},
-	{refdns.N("one", "example", "test"), 3, 1},  // other class
-	{refdns.N("one", "example", "test"), 1, 28}, // other type
-	{refdns.N("ONE", "Example", "test"), 1, 1},  // same question, other case
+	{refdns.N("one", "example", "test"), 257, 1}, // other class (same low octet as IN: a key that keeps only part of the field collides)
+	{refdns.N("one", "example", "test"), 1, 257}, // other type (CAA; same low octet as A)
+	{refdns.N("ONE", "Example", "test"), 1, 1},   // same question, other case
 }
 
 // triples of question indexes (repetitions are the interesting part)
 var c04Triples = [][3]int{{0, 1, 0}, {0, 0, 0}, {0, 2, 3}, {0, 4, 1}, {1, 0, 2}, {0, 3, 0}, {2, 0, 4}}
 
-var c04Upstreams = []string{"pipeline-tcp", "pipeline-udp", "reuse-tcp"}
+var c04Upstreams = []string{"pipeline-tcp", "pipeline-udp", "reuse-tcp", "doh"}
 var c04Pairs = [][2]string{{"udp", "tcp"}, {"tcp", "gnet"}, {"http-post", "udp"}, {"gnet", "fasthttp-get"}, {"tls", "quic"}, {"tcp", "tcp"}}
 var c04Caches = []int{0, 1 << 20, 200} // off, ample, tiny (evictions)
+
+// c04RT is a scripted http.RoundTripper for the DoH transport. Like a real client it serialises the request only when it gets to
+// send it (here: when the harness delivers the reply), so the server answers what the request's URL says at that moment.
+type c04RT struct {
+	mu      sync.Mutex
+	pending []*c04Req
+	closed  bool
+}
+
+type c04Req struct {
+	req  *http.Request
+	ch   chan *http.Response
+	done bool
+}
+
+func (r *c04RT) RoundTrip(req *http.Request) (*http.Response, error) {
+	p := &c04Req{req: req, ch: make(chan *http.Response, 1)}
+	r.mu.Lock()
+	if r.closed {
+		r.mu.Unlock()
+		return nil, errScripted
+	}
+	r.pending = append(r.pending, p)
+	r.mu.Unlock()
+	select {
+	case resp := <-p.ch:
+		if resp == nil {
+			return nil, errScripted
+		}
+		return resp, nil
+	case <-req.Context().Done():
+		return nil, req.Context().Err()
+	}
+}
+
+func (r *c04RT) Close() error {
+	r.mu.Lock()
+	defer r.mu.Unlock()
+	r.closed = true
+	for _, p := range r.pending {
+		if !p.done {
+			p.done = true
+			p.ch <- nil
+		}
+	}
+	return nil
+}
+
+// deliver answers pending request i with the answer to the question its URL carries now.
+func (r *c04RT) deliver(i int, serial byte) {
+	r.mu.Lock()
+	p := r.pending[i]
+	p.done = true
+	r.mu.Unlock()
+	var body []byte
+	if b, err := base64.RawURLEncoding.DecodeString(p.req.URL.Query().Get("dns")); err == nil {
+		if m, err := refdns.Decode(b); err == nil {
+			body = env.Answer(m, serial, 60).Encode(false)
+		}
+	}
+	h := http.Header{}
+	h.Set("Content-Type", "application/dns-message")
+	p.ch <- &http.Response{StatusCode: 200, Header: h, Body: io.NopCloser(bytes.NewReader(body)), ContentLength: int64(len(body)), Request: p.req}
+}
+
+func (r *c04RT) open() []int {
+	r.mu.Lock()
+	defer r.mu.Unlock()
+	var out []int
+	for i, p := range r.pending {
+		if !p.done && p.req.Context().Err() == nil {
+			out = append(out, i)
+		}
+	}
+	return out
+}
+
+var c04AsC10 = os.Getenv("VERIF_PROP") == "C10"
 
 func c04Scenario(c *choice.Ctx, rep *report.R, depth int) {
 	own := env.InstallOwn(0xA5, vRace)
@@ -54,6 +138,15 @@ func c04Scenario(c *choice.Ctx, rep *report.R, depth int) {
 	var trace []string
 	desc := fmt.Sprintf("upstream=%s cache=%d listeners=%v questions=%v", upKind, cacheSize, pair, triple)
 	fail := func(sig, msg string) {
+		if c04AsC10 {
+			// as a part of C10: with queries in flight concurrently, every forwarded query still carries exactly the question that was
+			// asked and the client gets the answer to it
+			if sig != "foreign-question" && sig != "foreign-answer" && sig != "upstream-asked-foreign-question" {
+				return
+			}
+			rep.Violate("C10:concurrent-queries:"+sig, msg+"\n  "+desc+" events: "+strings.Join(trace, " "), map[string]any{"Choices": c.Choices()})
+			return
+		}
 		rep.Violate("C04:"+sig, msg+"\n  "+desc+" events: "+strings.Join(trace, " "), map[string]any{"Choices": c.Choices()})
 	}
 	cfg := c03Config("forward")
@@ -71,11 +164,19 @@ func c04Scenario(c *choice.Ctx, rep *report.R, depth int) {
 	}
 	d := env.NewDialer(network)
 	var tr transport.Transport
+	var rt *c04RT
 	switch upKind {
 	case "pipeline-tcp":
 		tr = transport.NewPipelineTransport(transport.PipelineOpts{DialContext: d.Dial, IsTCP: true, IdleTimeout: 10 * time.Second, MaxConcurrentQuery: 64})
 	case "pipeline-udp":
 		tr = transport.NewPipelineTransport(transport.PipelineOpts{DialContext: d.Dial, IsTCP: false, IdleTimeout: time.Minute, MaxConcurrentQuery: 4096})
+	case "doh":
+		rt = &c04RT{}
+		dt, err := transport.NewDoHTransport(transport.DoHTransportOpts{EndPointUrl: "https://dns.example/dns-query", RoundTripper: rt, Closer: rt})
+		if err != nil {
+			panic(err)
+		}
+		tr = dt
 	default:
 		tr = transport.NewReuseConnTransport(transport.ReuseConnOpts{DialContext: d.Dial, IdleTimeout: 10 * time.Second})
 	}
@@ -83,6 +184,9 @@ func c04Scenario(c *choice.Ctx, rep *report.R, depth int) {
 	v.closers = append(v.closers, func() {
 		for i := 0; i < d.NumConns(); i++ {
 			d.ImplEnd(i).Abort()
+		}
+		if rt != nil {
+			rt.Close()
 		}
 	})
 	seamByName := func(n string) c03Seam {
@@ -230,6 +334,15 @@ func c04Scenario(c *choice.Ctx, rep *report.R, depth int) {
 				}})
 			}
 		}
+		if rt != nil {
+			for _, ri := range rt.open() {
+				ri := ri
+				menu = append(menu, event{name: fmt.Sprintf("reply(doh#%d)", ri), do: func() {
+					serial++
+					rt.deliver(ri, serial)
+				}})
+			}
+		}
 		menu = append(menu, event{name: "advance1s", do: func() { hsleep(time.Second) }})
 		// longer steps (request deadline / I-O deadline of the upstream; into the refresh window of a 60 s answer) cost one deviation each
 		menu = append(menu, event{name: "advance6s", fault: true, do: func() { hsleep(6 * time.Second) }})
@@ -242,6 +355,17 @@ func c04Scenario(c *choice.Ctx, rep *report.R, depth int) {
 		ev.do()
 		wait()
 		checkResponses()
+	}
+	if rt != nil {
+		for guard := 0; guard < 8; guard++ {
+			op := rt.open()
+			if len(op) == 0 {
+				break
+			}
+			serial++
+			rt.deliver(op[0], serial)
+			wait()
+		}
 	}
 	// answer whatever is still outstanding, let deadlines pass, final check: every query got exactly one response
 	for ci := 0; ci < d.NumConns(); ci++ {
@@ -304,7 +428,7 @@ func TestVerifC04(t *testing.T) {
 	rep := report.New("C04 answers never mixed up")
 	defer rep.Write()
 	depth := report.ParamInt("DEPTH", 7)
-	rep.Rule = fmt.Sprintf("E3: real router + real upstream transport %v over the scripted dialer + cache {off, ample, 200 bytes (evictions)}; start state {fresh router, after a query answered NOTIMP by the proxy itself (RD=0 / two questions)}; listener pairs %v; question triples %v over {one/IN/A, two/IN/A, one/CH/A, one/IN/AAAA, ONE (case variant)}, query 0 and 2 from the first client, query 1 from the second; "+
+	rep.Rule = fmt.Sprintf("E3: real router + real upstream transport %v over the scripted dialer + cache {off, ample, 200 bytes (evictions)}; start state {fresh router, after a query answered NOTIMP by the proxy itself (RD=0 / two questions)}; listener pairs %v; question triples %v over {one/IN/A, two/IN/A, one/class257/A, one/IN/CAA(257), ONE (case variant)}, query 0 and 2 from the first client, query 1 from the second; "+
 		"all sequences of length <=%d over {send next query, deliver the reply to any outstanding upstream query (any order on pipelined transports), advance 1 s, advance 6 s / 46 s (bounded number per execution)}; then every outstanding reply is delivered; "+
 		"oracle after every event: every client-visible response to query i carries i's own question and the answer the upstream produced for exactly that (name, class, type) - fresh or from cache -, no poison/uninit bytes; finally exactly one response per query",
 		c04Upstreams, c04Pairs, c04Triples, depth)
